@@ -1,8 +1,10 @@
+\* Default design check (3 nodes, one term, 3 calls in flight, as intended). tools/props/c17.py writes the
+\* configurations it runs itself (exhaustive x/y/z, simulation 3 and 4-5 nodes).
 CONSTANTS
-  Configs <- Cfg3
-  MaxTerm = 2
+  Configs <- Cfg3b
+  MaxTerm = 1
   MaxCalls = 3
-  MaxFails = 2
+  MaxFails = 1
   MaxDup = 0
   MaxCuts = 0
   DEV_RehashDebounce = FALSE
